@@ -8,3 +8,7 @@ verify_seed(){ _sid=$1; _demo=${2:-derive/tests/seeded_demo.rs}; _pkg=${3:-pest_
     git apply /verif/seeded/$_sid/patch.diff; echo "-- with change:"; CARGO_NET_OFFLINE=true cargo test -p $_pkg --test $_t --offline $_fl 2>&1 | grep -E "test result";
     rm $_demo; echo "-- existing suite with change (non-ok result lines):"; CARGO_NET_OFFLINE=true cargo test --workspace --no-fail-fast --offline 2>&1 | grep -E "^test result|^error" | grep -v "ok\." );
   git -C /repo worktree remove --force $_wt; }
+# process_seed <seed id> <agent worktree> [demo path] [package] [cargo flags]: save, remove the agent's worktree, verify in a
+# fresh one, then run the check of the seed's own property against it (on /repo, reverted afterwards)
+process_seed(){ _psid=$1; _pwt=$2; shift 2; save_seed $_psid $_pwt >/dev/null; git -C /repo worktree remove --force $_pwt;
+  echo "== $_psid"; verify_seed $_psid "$@"; /verif/selftest/run_seed.sh $_psid ${_psid%%-*} 2>&1 | grep -E "^  [RBI]|rc=" | cut -c1-260 | head -6; }
